@@ -83,7 +83,6 @@ Rot4(M, i, j, k, l) == M[k][i] * M[l][j]
 ERotTT(n, M)  == RedTT(n, LAMBDA i, j, k, l : Rot4(M, i, j, k, l))
 ERotSS2(n, M) == RedSS(n, LAMBDA i, j, k, l : Rot4(M, i, j, k, l) + Rot4(M, i, j, l, k))
 \* ---- products (double contraction) and applications of reduced operands ----
-Comp(X(_, _, _, _), Y(_, _, _, _), i, j, m, n) == Sum9(LAMBDA k, l : X(i, j, k, l) * Y(k, l, m, n))
 EProducts(n, x, y) ==
   [ss_ss |-> RedSS(n, LAMBDA i, j, k, l : Sum9(LAMBDA p, q : Tss(x.ss, i, j, p, q) * Tss(y.ss, p, q, k, l))),
    tt_tt |-> RedTT(n, LAMBDA i, j, k, l : Sum9(LAMBDA p, q : Ttt(x.tt, i, j, p, q) * Ttt(y.tt, p, q, k, l))),
